@@ -363,8 +363,27 @@ PROPS['C10'] = {
     ],
 }
 
+PROPS['C01'] = {
+    'level': 'proof',
+    'level_text': 'PARTIAL - three of the four mechanisms of this property, as contracts on the real code (Verus): (1) InitMsg::read_from returns a message only if it carries an Ed25519 signature that is valid, under a key of the trusted list - the one selected by the salted hash in the first 8 bytes - over ALL bytes up to and including the end marker; for every byte sequence and every trusted list, with termination and memory safety. (2) InitState::handle_init, from its first statement up to the decoder call: when the decoder rejects, the error is returned with the handshake object and the buffer geometry unchanged ("without altering a handshake already in progress"). (3) the statements of GenericCloud::handle_net_message that treat a handshake datagram from an address without pending handshake: the responder object is stored only if it accepted that first message; otherwise no pending entry, no peer, nothing sent ("without creating a peer ... without any reply"). Ed25519 and SHA-256 are uninterpreted functions (unforgeability is the cipher assumption). NOT decided: that two nodes become peers EXACTLY when each trusts the other (needs the whole handshake: C05), mechanism (4) (payload of pong/peng must decrypt before success is reported), the stages after the decoder inside handle_init, lingering / pending handshake objects receiving the datagram (PeerCrypto::handle_message is an environment function at node level), key parsing and the trusted-list construction in Crypto::new.',
+    'verus': [{'unit': 'codec', 'rlimit': 60, 'fns': ['InitMsg::read_from', 'InitState::handle_init_until_decoded', 'MsgBuffer::.*', 'lemma_cur_adv', 'canary_.*']},
+              {'unit': 'cloud', 'fns': ['GenericCloud::responder_block', 'GenericCloud::handle_net_message']}],
+    'native_search': {r'codec::(InitMsg|InitState).*': INIT_DRV},
+    'trusted': CODEC_TRUSTED + CLOUD_TRUSTED + [
+        'ring: Ed25519 verification and SHA-256 as uninterpreted functions ed25519_ok(key, data, signature), key_hash4(key, salt); R5 pinned statements: `signature::UnparsedPublicKey::new(&ED25519, &public_key_data)` + `public_key.verify(signed_data, &signature).is_err()`, `Self::calculate_hash(tk, &public_key_salt) == public_key_hash`',
+        'B1 stand-in for InitState: the plain-data fields (node id, salted hash, payload, trusted keys as Vec, stage, close time, last message, retry counter); the key objects (ECDH private key, key pair, crypto core, algorithms) are not part of the stand-in, so the frame condition does not cover them',
+        'unit cloud: ghost counter accepted(PeerCrypto) advanced by the environment function PeerCrypto::handle_message exactly when it returns Ok; for a fresh responder "accepted" means InitState::handle_init returned Ok (PeerCrypto::handle_init_message is read, not proved)',
+    ],
+    'not_decided': [
+        'two nodes become peers exactly when each trusts the other key (whole-handshake agreement, see C05)',
+        'mechanism (4): the payload of pong/peng must decrypt under the freshly agreed key before success is reported (InitState::handle_init Pong/Peng arms: ring ECDH objects)',
+        'InitState::handle_init after the decoder call (stage machine, self test, role switch) and PeerCrypto::handle_init_message',
+        'datagrams for addresses WITH a pending or lingering handshake object: they go to that object (PeerCrypto::handle_message, environment function in unit cloud); that a rejected one does not alter it rests on (2) plus reading of PeerCrypto::handle_init_message',
+        'trust relations among several key pairs (Crypto::new, password-derived keys): configurations, not contracts',
+    ],
+}
+
 NOT_APPLICABLE = {
-    'C01': 'needs Ed25519 unforgeability plus InitMsg::read_from / InitState::handle_init, which neither back end reaches (150-line TLV parser over Cursor/SmallVec; ring key objects); no contract within reach expresses it',
     'C05': 'all-schedules agreement and recovery of two retransmitting state machines plus a liveness bound: a protocol-level joint invariant and liveness, outside per-function contracts',
     'C07': 'invariant over the product of two RotationStates, eight key slots and in-flight messages with key identity defined through ECDH; liveness clause; not decidable by per-function contracts within reach',
     'C09': 'whole-history property of 2-3 nodes over hundreds of seconds; no function-level contract expresses it without being stronger than the property',
